@@ -21,4 +21,6 @@ pub mod rr;
 pub mod server;
 pub mod thread;
 mod util;
+#[cfg(quandary_verif)]
+pub mod verif;
 pub mod zone_file;
